@@ -175,7 +175,7 @@ def run(ctx):
     skipped = [j for j in jsons if j["outcome"] == "compile_error" and not j["file"]["opts"]["yaml"]]
     ctx.cov.update({
         "evaluations": len(jsons),
-        "definition_files": len({j["pkg"] for j in jsons}),
+        "definition_files": len({(j["pkg"], hash(j["file"].get("source"))) for j in jsons}),
         "accessor_results_compared": sum(len(a["e"]) for j in jsons for a in (j["obs"].get("acc") or [])),
         "parse_by_trait_calls": sum(len(j["obs"].get("tparse") or []) for j in jsons),
         "trait_documents_decoded": sum(1 for d in docs if (d.get("from") or "").startswith("trait:")),
